@@ -276,6 +276,13 @@ class _TraceHandle:
         self.depth = 0          # >0 while inside a target function
         self._seams = seams
 
+    def _is_target(self, code):
+        # names are either bare function names (any library file) or "file.py:function"
+        if code.co_name in self.names:
+            return self._is_lib(code)
+        key = os.path.basename(code.co_filename) + ":" + code.co_name
+        return key in self.names and self._is_lib(code)
+
     def _is_lib(self, code):
         fn = code.co_filename
         return any(("/" + f + "/") in fn for f in self.files)
@@ -284,7 +291,7 @@ class _TraceHandle:
         if event != "call":
             return None
         code = frame.f_code
-        if code.co_name in self.names and self._is_lib(code):
+        if self._is_target(code):
             self.depth += 1
             return self.local_trace_root
         if self.depth > 0:
